@@ -828,4 +828,79 @@ theorem shell_resolution {s : State} (h : Reachable s) (sh : Shell) (wp : Bool) 
     ∀ x, x ∈ (Shell.drain wp cur sh (step s (.resolved id bid addr now)).2).2 → x.2 = some x.1 :=
   shell_routes_resolution (reachable_inv h) sh wp cur id bid addr now
 
+/-! ### routing removed, aborted admissions, listener glue -/
+
+/-- with an empty cluster (RemoveUdpFrontend / RemoveCluster) a client datagram
+    only produces a drop, and nothing of the flow state changes -/
+theorem routing_removed {s : State} (h : Reachable s) (hc : s.cluster.cluster = "") (src : Addr)
+    (p : Bytes) (now : Nat) :
+    (∃ r, (step s (.client src p now)).2 = [.metric (.dropped r), .drop r] ∧ (r = .truncated ∨ r = .noBackend)) ∧
+    (step s (.client src p now)).1.slots = s.slots ∧ (step s (.client src p now)).1.table = s.table ∧
+    (step s (.client src p now)).1.len = s.len := by
+  have hi := reachable_inv h
+  rw [step_snd s _ hi.drained, step_slots s _ hi.drained, step_table s _ hi.drained, step_len s _ hi.drained]
+  show (∃ r, (onClient s src p now).outs = _ ∧ _) ∧ (onClient s src p now).slots = _ ∧
+    (onClient s src p now).table = _ ∧ (onClient s src p now).len = _
+  unfold onClient
+  by_cases h1 : p.length > s.maxRx
+  · simp only [h1, if_true]
+    exact ⟨⟨.truncated, by rw [drop_outs, hi.drained]; rfl, Or.inl rfl⟩, rfl, rfl, rfl⟩
+  · have h2 : s.cluster.cluster.isEmpty = true := by rw [hc]; rfl
+    simp only [h1, h2, if_true, if_false]
+    exact ⟨⟨.noBackend, by rw [drop_outs, hi.drained]; rfl, Or.inr rfl⟩, rfl, rfl, rfl⟩
+
+/-- `abort_flow` on a live flow closes it: one `CloseFlow`, slot vacant, one flow less -/
+theorem abort_closes {s : State} (h : Reachable s) (id : Nat) (f : Flow) (hf : getFlow s id = some f) :
+    Out.closeFlow id ∈ (step s (.abort id)).2 ∧ getFlow (step s (.abort id)).1 id = none ∧
+    (step s (.abort id)).1.len + 1 = s.len := by
+  have hi := reachable_inv h
+  simp only [getFlow_def] at hf ⊢
+  rw [step_snd s _ hi.drained, step_slots s _ hi.drained, step_len s _ hi.drained]
+  show Out.closeFlow id ∈ (closeFlow s id).outs ∧ get? (closeFlow s id).slots id = none ∧
+    (closeFlow s id).len + 1 = s.len
+  have hpos := len_pos_of_live hi.str hf
+  refine ⟨?_, by rw [closeFlow_get hi.str]; simp, ?_⟩
+  · rw [closeFlow_live hi.str hf]
+    rcases reschedule_outs (push (push (closedCore s id f) (.metric .flowEvicted)) (.closeFlow id)) with e | ⟨d, e⟩ <;>
+      rw [e] <;> simp
+  · rw [closeFlow_live hi.str hf, (sameCore_reschedule _).len]
+    show (closedCore s id f).len + 1 = s.len
+    simp [closedCore, slabRemove]; omega
+
+/-- an admission that the shell aborts at once (no backend for the cluster)
+    leaves no trace: the live count is what it was, the slot is vacant again and
+    no table key points at it -/
+theorem aborted_admission {s : State} (h : Reachable s) (src : Addr) (p : Bytes) (now id : Nat)
+    (cl : String) (k : AKey) (hout : Out.selectBackend id cl k ∈ (step s (.client src p now)).2) :
+    Out.closeFlow id ∈ (step (step s (.client src p now)).1 (.abort id)).2 ∧
+    (step (step s (.client src p now)).1 (.abort id)).1.len = s.len ∧
+    getFlow (step (step s (.client src p now)).1 (.abort id)).1 id = none ∧
+    ∀ key, get? (step (step s (.client src p now)).1 (.abort id)).1.table key ≠ some id := by
+  obtain ⟨src', p', now', hop, _, _, _, _, _, hnew, hlen⟩ := c19_admission h _ id cl k hout
+  have h1 := reachable_step h (.client src p now)
+  obtain ⟨ha, hb, hc⟩ := abort_closes h1 id _ hnew
+  refine ⟨ha, by omega, hb, (c19_close_once h1 (.abort id)).2 id ha |>.2.2⟩
+
+theorem cap_glue (configured rlimit headroom : Nat) :
+    (configured ≠ 0 → effectiveMaxFlows configured rlimit headroom = configured) ∧
+    1 ≤ effectiveMaxFlows 0 rlimit headroom ∧
+    (headroom ≠ 0 → effectiveMaxFlows 0 rlimit headroom ≤ headroom) ∧
+    (headroom = 0 → 0 < rlimit → effectiveMaxFlows 0 rlimit headroom = max (rlimit * 7 / 10) 1) := by
+  refine ⟨?_, ?_, ?_, ?_⟩
+  · intro hc; simp [effectiveMaxFlows, hc]
+  · simp only [effectiveMaxFlows, ne_eq, not_true_eq_false, if_false]
+    by_cases hh : headroom = 0 <;> by_cases hr : rlimit > 0 <;> simp [hh, hr] <;> omega
+  · intro hh
+    simp only [effectiveMaxFlows, ne_eq, not_true_eq_false, if_false, hh]
+    by_cases hr : rlimit > 0 <;> simp [hr] <;> omega
+  · intro hh hr
+    simp [effectiveMaxFlows, hh, hr]
+
+theorem rx_glue (configured bufferSize : Nat) :
+    clampMaxRx configured bufferSize ≤ configured ∧
+    (bufferSize ≠ 0 → clampMaxRx configured bufferSize ≤ bufferSize) ∧
+    (configured ≤ bufferSize → clampMaxRx configured bufferSize = configured) := by
+  unfold clampMaxRx
+  by_cases hb : bufferSize = 0 <;> simp [hb] <;> omega
+
 end Sozu.Udp
